@@ -29,6 +29,7 @@ PARTS += ["melody"]       # mir_eval/melody.py frame metrics, validation, freq_t
 PARTS += ["validators"]   # mir_eval input validators -> MirGen/Validators.lean (C14)
 PARTS += ["sepcrit"]      # mir_eval/separation.py criteria, decomposition arithmetic -> MirGen/SepCrit.lean (C19)
 PARTS += ["pattern"]      # mir_eval/pattern.py metrics -> MirGen/Pattern.lean (C04, C01; after validators: binds to Mir.GenV.pattern.*)
+PARTS += ["beat"]         # mir_eval/beat.py trim_beats, _get_reference_beat_variations, p_score -> MirGen/Beat.lean (C04)
 
 
 def write_if_changed(path, text):
